@@ -95,4 +95,14 @@ bool ops_image(Ctx& c, const json& s, int idx, bool& handled) {
 		if (must == "refuse" && !err) { Proto::mismatch(fsite, "accepted-should-refuse", where("a proper prefix of a valid file was loaded (" + std::to_string(img.size()) + " bytes)")); return false; }
 		if (must == "accept" && err) { Proto::mismatch(fsite, "refused-should-accept", where("")); return false; }
 		return true; }
+	// ---- C08: the factory overloads taking a palette and pixel rows -----------------------------------------------------------------
+	if (op == "bmp_factory2") { std::vector<Color> pal; for (auto& c : s["palette"]) pal.push_back(Color{(uint8_t)c[0].get<int>(), (uint8_t)c[1].get<int>(), (uint8_t)c[2].get<int>(), (uint8_t)c[3].get<int>()}); auto px = raw(s["pixels"]);
+		BitmapFile b; if (throws([&] { b = BitmapFile::CreateIndexed(s["bc"].get<uint16_t>(), s["w"].get<uint32_t>(), s["h"].get<int32_t>(), pal, px); })) { Proto::mismatch(site, "refused-should-accept", where("")); return false; }
+		if (b.pixels != px) { Proto::mismatch(site, "field", where("pixels are not the rows handed in")); return false; }
+		for (std::size_t i = 0; i < pal.size(); ++i) if (!(b.palette[i] == pal[i])) { Proto::mismatch(site, "field", where("palette entry " + std::to_string(i))); return false; }
+		auto out = bmp_bytes(b), want = raw(s["canon"]); if (out != want) { Proto::mismatch(site, "bytes", where(Scen::hexdiff(out, want))); return false; }
+		BitmapFile b2; if (throws([&] { b2 = bmp_from(out); })) { Proto::mismatch(site, "reread-refused", where("")); return false; }
+		if (b2.imageHeader.width != b.imageHeader.width || b2.imageHeader.height != b.imageHeader.height || b2.imageHeader.bitCount != b.imageHeader.bitCount || b2.palette != b.palette) { Proto::mismatch(site, "round-trip-not-equal", where("")); return false; }
+		if (throws([&] { b.Validate(); })) { Proto::mismatch(site, "field", where("Validate() refuses a factory-made bitmap")); return false; }
+		return true; }
 	OPS_EPILOGUE }
